@@ -110,7 +110,8 @@ def multiple_mahalanobis(effect, covariance):
         raise ValueError('Inconsistant shape for covariance')
 
     # transpose and make contuguous for the sake of speed
-    Xt, Kt = np.ascontiguousarray(effect.T), np.ascontiguousarray(covariance.T)
+    # Kt is inverted in place below, so it must be a copy of the input
+    Xt, Kt = np.ascontiguousarray(effect.T), np.array(covariance.T, order='C')
 
     # compute the inverse of the covariances
     Kt = multiple_fast_inv(Kt)
